@@ -148,6 +148,21 @@ def permissive_levels(patterns=None):
         LEVEL_SEQUENCE_RESTRICTIONS.update(orig_r)
 
 
+@contextlib.contextmanager
+def permissive_patterns():
+    """Swap every level's data-unit ordering pattern for '.*' (value tables untouched)."""
+    from vc2_conformance.level_constraints import LEVEL_SEQUENCE_RESTRICTIONS, LevelSequenceRestrictions
+
+    orig = dict(LEVEL_SEQUENCE_RESTRICTIONS)
+    try:
+        for lv in list(orig):
+            LEVEL_SEQUENCE_RESTRICTIONS[lv] = LevelSequenceRestrictions(sequence_restriction_explanation="verif: any order", sequence_restriction_regex=".*")
+        yield
+    finally:
+        LEVEL_SEQUENCE_RESTRICTIONS.clear()
+        LEVEL_SEQUENCE_RESTRICTIONS.update(orig)
+
+
 def deserialise(data, limits=True):
     """Run the real bitstream Deserialiser to completion on data.
 
